@@ -234,10 +234,10 @@ func (l *lexer) Lex(lval *yySymType) (tokenType int) {
 		return tok
 	default:
 		if ch >= utf8.RuneSelf {
-			r, size := utf8.DecodeRuneInString(l.source[l.offset-1:])
+			_, size := utf8.DecodeRuneInString(l.source[l.offset-1:])
 			// -1 to adjust for first byte consumed by next()
 			l.offset += size - 1
-			l.token = string(r)
+			l.token = l.source[l.offset-size : l.offset]
 		}
 	}
 	return int(ch)
